@@ -270,7 +270,21 @@ impl<'a> DiagnosticContext<'a> {
     }
 
     pub fn get_diagnostics(self) -> Vec<Diagnostic> {
-        self.diagnostics
+        // never report the same diagnostic twice (e.g. the parser can record one error twice
+        // while it recovers); the first occurrence keeps its place
+        let mut seen: HashMap<(lsp_types::Range, String), Vec<usize>> = HashMap::new();
+        let mut diagnostics: Vec<Diagnostic> = Vec::with_capacity(self.diagnostics.len());
+        for diagnostic in self.diagnostics {
+            let same_place = seen
+                .entry((diagnostic.range, diagnostic.message.clone()))
+                .or_default();
+            if same_place.iter().any(|&i| diagnostics[i] == diagnostic) {
+                continue;
+            }
+            same_place.push(diagnostics.len());
+            diagnostics.push(diagnostic);
+        }
+        diagnostics
     }
 
     pub fn is_checker_enable_by_code(&self, code: &DiagnosticCode) -> bool {
